@@ -36,5 +36,9 @@ def run(seed: Path) -> dict:
 if __name__ == "__main__":
     ids = sys.argv[1:] or sorted(p.name for p in (V / "seeded").iterdir() if (p / "patch.diff").exists())
     for i in ids:
-        r = run(V / "seeded" / i)
+        try:
+            r = run(V / "seeded" / i)
+        except Exception as e:  # e.g. the patch no longer applies: needs a rebase
+            print(i, "ERROR", str(e)[:200])
+            continue
         print(i, r["exit"], (r["lines"] or ["-"])[0][:160], "|", (r["detail"] or [""])[0][:200])
